@@ -82,6 +82,13 @@ theorem eval_congr : (e : Expr) → ∀ ρ ρ' : Env,
     intro hok
     simp only [EnvOk] at hok ⊢
     exact h1.2 hok
+  | .present a c => by
+    intro ρ ρ' hag hb he
+    have h1 := eval_congr c ρ ρ' (fun id hid => hag id (by simpa [ivars] using hid)) hb he
+    refine ⟨by simp only [eval, h1.1], ?_⟩
+    intro hok
+    simp only [EnvOk] at hok ⊢
+    exact h1.2 hok
 theorem evalList_congr : (es : List Expr) → ∀ ρ ρ' : Env,
     (∀ id ∈ ivarsList es, ρ.i id = ρ'.i id) → ρ.b = ρ'.b → ρ.e = ρ'.e →
     evalList ρ es = evalList ρ' es ∧ (EnvOkList ρ es → EnvOkList ρ' es)
